@@ -121,6 +121,80 @@ func GenQuery(r *vh.Rng, spec *SchemaSpec, o QOpts) *Query {
 	return g.q
 }
 
+// GenQueryWide is GenQuery plus a selection of the given root list field under alias "w" that goes
+// one to three function fields deep below every element.
+func GenQueryWide(r *vh.Rng, spec *SchemaSpec, o QOpts, rootField string) *Query {
+	q := GenQuery(r, spec, o)
+	g := &qgen{r: r, spec: spec, o: o, byType: map[string][]*FragDef{}, aliasSig: map[string]string{}, mergeFrag: map[string]*FragDef{}, q: q, eff: q.Eff()}
+	g.nextID = 100000
+	g.inFrag = true // default aliases only, no new fragments
+	qt := spec.Type("Query")
+	f := qt.Field(rootField)
+	rt := f.Ret
+	for rt.K == "list" {
+		rt = *rt.Elem
+	}
+	n := &Node{Kind: "field", Name: f.Name, Alias: "w", HasSub: true, ID: g.id()}
+	if f.Arg {
+		a := int64(r.Intn(3))
+		n.Arg = &a
+	}
+	g.path = "/w"
+	n.Sub = append(g.chain(rt.Name, 1+r.Intn(3)), g.set(rt.Name, 1)...)
+	q.Body = append(q.Body, n)
+	return q
+}
+
+// chain selects a function field of typ that returns objects (if there is one) and, below it, goes on
+// the same way for depth levels; at the bottom some leaf.
+func (g *qgen) chain(typ string, depth int) []*Node {
+	t := g.spec.Type(typ)
+	var comps, funcs []*FieldSpec
+	for i := range t.Fields {
+		f := &t.Fields[i]
+		rt := f.Ret
+		for rt.K == "list" {
+			rt = *rt.Elem
+		}
+		if !f.Struct {
+			if rt.K == "obj" {
+				comps = append(comps, f)
+			} else if rt.K != "union" {
+				funcs = append(funcs, f)
+			}
+		}
+	}
+	var out []*Node
+	if len(funcs) > 0 {
+		out = append(out, g.field(t, funcs[g.r.Intn(len(funcs))], 0))
+	}
+	if depth > 0 && len(comps) > 0 {
+		f := comps[g.r.Intn(len(comps))]
+		rt := f.Ret
+		for rt.K == "list" {
+			rt = *rt.Elem
+		}
+		n := &Node{Kind: "field", Name: f.Name, Alias: f.Name, HasSub: true, ID: g.id()}
+		if f.Arg {
+			a := int64(g.r.Intn(3))
+			n.Arg = &a
+			n.Alias = fmt.Sprintf("%s_%d", f.Name, a)
+		}
+		old := g.path
+		g.path = old + "/" + n.Alias
+		n.Sub = g.chain(rt.Name, depth-1)
+		g.path = old
+		if len(n.Sub) == 0 {
+			n.Sub = []*Node{{Kind: "field", Name: "__typename", Alias: "__typename"}}
+		}
+		out = append(out, n)
+	}
+	if len(out) == 0 {
+		out = append(out, &Node{Kind: "field", Name: "__typename", Alias: "__typename"})
+	}
+	return out
+}
+
 func (g *qgen) id() int { g.nextID++; return g.nextID }
 
 func (g *qgen) dirs() []Dir {
